@@ -48,9 +48,19 @@ def main():
             return b"".join(np.atleast_1d(np.asarray(r if r is not None else np.nan, float)).tobytes() for r in res)
         return np.asarray(res, float).tobytes()
 
+    def inter_blob(getter):
+        parts = getter()
+        chunks = []
+        for key in sorted(parts):
+            v = parts[key]
+            v = v[1] if isinstance(v, tuple) else v
+            chunks.append(key.encode() + np.atleast_1d(np.asarray(v, float)).tobytes())
+        return b"".join(chunks)
+
     out = []
     last = None
     kept = []      # (step index, op, the returned objects themselves, their bytes when returned)
+    kept_fn = []   # (step index, results() callable handed out by that evaluation, bytes of what it gave then)
     for i, step in enumerate(case["steps"]):
         op = step["op"]
         rec = {"i": i, "op": op}
@@ -94,6 +104,11 @@ def main():
                 blob = blob_of(res)
                 rec["hex"] = blob.hex()
                 kept.append((i, op, res, blob))
+                getter = getattr(k, "results", None)
+                if callable(getter):
+                    # the callable for the intermediate results belongs to THIS evaluation, also when it is
+                    # evaluated only after later calls
+                    kept_fn.append((i, getter, inter_blob(getter)))
                 rec["mutated"] = (list(pars.items()) != list(before.items()))
                 last = step
             elif op == "direct":
@@ -174,6 +189,11 @@ def main():
             rec["clobbered"] = changed
             kept[:] = [(j, op_j, res_j, blob_of(res_j)) for j, op_j, res_j, _b in kept]
         del kept[:-8]
+        stale = [j for j, fn_j, blob_j in kept_fn if j != i and inter_blob(fn_j) != blob_j]
+        if stale:
+            rec["intermediates_changed"] = stale
+            kept_fn[:] = [(j, fn_j, inter_blob(fn_j)) for j, fn_j, _b in kept_fn]
+        del kept_fn[:-4]
         out.append(rec)
     with open(sys.argv[2], "w") as fh:
         json.dump(out, fh)
